@@ -251,7 +251,7 @@ pub fn run_program(prog: Program, opts: &Opts, plan: noise::Plan) -> RunResult {
         for (t, acts) in ctx.prog.threads.iter().enumerate() {
             let uses = acts.iter().any(|a| match a {
                 TAct::Op(o) | TAct::Join(o) | TAct::DropHeld(o) => ctx.prog.ops[*o].obj == m,
-                TAct::ReleaseMortal => true,
+                TAct::ReleaseMortal | TAct::PanicRelease => true,
                 TAct::PipeCreate(p) | TAct::Consume(p, _) | TAct::DropStream(p) => ctx.prog.pipes[*p].obj == m,
                 _ => false });
             if uses { mortal_clones[t] = Some(Arc::clone(&owner)); }
@@ -574,7 +574,8 @@ pub fn run_program(prog: Program, opts: &Opts, plan: noise::Plan) -> RunResult {
                 // a despawned thread can linger in /proc for a moment after it has been joined: only threads that stay count
                 let mut tries = 0;
                 while os > cur_max && tries < 50 { thread::sleep(Duration::from_millis(1)); tries += 1; if let Some(s) = quiesce::snapshot() { os = quiesce::pool_threads(&s); } }
-                if os > cur_max { ctx.sink.report("C17", "pool_exceeded_maximum", format!("pool_over_os:max{}", cur_max), format!("{} pool threads alive (kernel view) with maximum {}", os, cur_max)); }
+                // the kernel's view lags behind (an exited thread can linger); it only counts together with the exact hook counter
+                if os > cur_max && live_pool() > cur_max { ctx.sink.report("C17", "pool_exceeded_maximum", format!("pool_over_os:max{}", cur_max), format!("{} pool threads alive (kernel view) with maximum {}", os, cur_max)); }
                 stats.pool_os = os;
             }
         }
